@@ -72,3 +72,23 @@ def mirror_obs_wrapper(env: Any) -> Any:
             return s, self._flip(ts)
 
     return MirrorObs(env)
+
+
+def knapsack_eighths_generator(num_items: int, total_budget: float) -> Any:
+    """A user-written Knapsack generator (subclass of the public ``Generator`` base class): weights are multiples of
+    1/8, so an item can fill the remaining budget *exactly* (the boundary of "weight <= remaining budget"), which the
+    stock RandomGenerator's uniform floats never produce."""
+    import jax
+    import jax.numpy as jnp
+    from jumanji.environments.packing.knapsack.generator import Generator
+    from jumanji.environments.packing.knapsack.types import State
+
+    class EighthsGenerator(Generator):
+        def __call__(self, key: Any) -> Any:
+            key, wk, vk = jax.random.split(key, 3)
+            weights = jax.random.randint(wk, (self.num_items,), 1, 9).astype(float) / 8
+            values = jax.random.uniform(vk, (self.num_items,))
+            return State(weights=weights, values=values, packed_items=jnp.zeros(self.num_items, dtype=bool),
+                         remaining_budget=jnp.array(self.total_budget, float), key=key)
+
+    return EighthsGenerator(num_items, total_budget)
